@@ -53,7 +53,7 @@ pub fn replay_e1(args: &Args, mk: &MkMon) -> Report {
     rep
 }
 
-const SIZES_Q: [u64; 6] = [0, 1, 15, 16, 17, 32];
+const SIZES_Q: [u64; 7] = [0, 1, 15, 16, 17, 32, 40];
 
 fn naks(tier: Tier) -> Vec<(bool, u64)> {
     tier.pick(vec![(false, 0), (true, 0), (false, 5)], vec![(false, 0), (false, 5), (true, 0), (true, 5)])
@@ -79,7 +79,9 @@ fn c02_scenarios(tier: Tier) -> Vec<Scenario> {
             s.nak_delay_s = delay;
             all_kinds(&mut s, 1);
             // quick: two faults on the small files of the default procedure
-            let f2 = tier == Tier::Thorough || (!imm && delay == 0 && size <= 17);
+            // (and on the two-segment file of the immediate procedure, where a NAK can reach the
+            // sender before or after the EOF went out)
+            let f2 = tier == Tier::Thorough || (delay == 0 && size <= 17 && (!imm || size == 17));
             if f2 {
                 let mut s2 = s.clone();
                 s2.name = format!("c02 {} F=2 duot", nm);
@@ -186,6 +188,26 @@ pub fn c01(args: &Args) -> Report {
                 }
             }
         }
+        // a stale, longer file already sits under the destination name
+        let mut st = Scenario::base(&format!("c01 {}{} size=17 stale destination F=1", if ack { "ack" } else { "unack" }, if closure { "+closure" } else { "" }));
+        st.ack = ack;
+        st.closure = closure;
+        st.file_size = Some(17);
+        st.pre_files = vec![(DST_NAME.into(), "STALE-CONTENT-LONGER-THAN-THE-SOURCE-FILE".into())];
+        st.faults = 1;
+        st.k_drop = true;
+        st.k_dup = true;
+        scns.push(st);
+        // three segments, reordered / duplicated / re-requested (cursor handling of the staging file)
+        let mut ro = Scenario::base(&format!("c01 {}{} size=40 F={} duo", if ack { "ack" } else { "unack" }, if closure { "+closure" } else { "" }, args.tier.pick(1, 2)));
+        ro.ack = ack;
+        ro.closure = closure;
+        ro.file_size = Some(40);
+        ro.faults = args.tier.pick(1, 2);
+        ro.k_drop = true;
+        ro.k_dup = true;
+        ro.k_overtake = true;
+        scns.push(ro);
         // CRC on: payload corruption is a fault kind
         let mut s = Scenario::base(&format!("c01 {}{} crc size=17 F=1 corrupt", if ack { "ack" } else { "unack" }, if closure { "+closure" } else { "" }));
         s.ack = ack;
@@ -242,6 +264,31 @@ pub fn c03(args: &Args) -> Report {
                 }
             }
         }
+    }
+    // blackout combined with the bounded fault pool: a late or duplicated answer followed by silence
+    for (imm, nm) in [(false, "def0"), (true, "imm0")] {
+        let mut p = Scenario::base(&format!("c03 ack nak={} max_count=2 blackout + F=1 dut", nm));
+        p.nak_immediate = imm;
+        p.max_count = 2;
+        p.file_size = Some(17);
+        p.faults = 1;
+        p.k_drop = true;
+        p.k_dup = true;
+        p.k_delay = true;
+        p.blackout = vec![LinkId::SR, LinkId::RS];
+        scns.push(p);
+    }
+    // a user cancel (at either entity) followed by duplicated / lost answers and silence
+    for by in [Side::S, Side::R] {
+        let mut p = Scenario::base(&format!("c03 ack max_count=2 cancel@{:?} + blackout + F=1 du", by));
+        p.max_count = 2;
+        p.file_size = Some(17);
+        p.user = vec![(by, UserOp::Cancel, 1)];
+        p.faults = 1;
+        p.k_drop = true;
+        p.k_dup = true;
+        p.blackout = vec![LinkId::SR, LinkId::RS];
+        scns.push(p);
     }
     // a NAK prompt at every state (also after the receiver has finished or was cancelled)
     for (imm, nm) in [(false, "def0"), (true, "imm0")] {
@@ -552,6 +599,17 @@ pub fn c08(args: &Args) -> Report {
         s.user = vec![(Side::S, UserOp::PromptNak, 1)];
         scns.push(s);
     }
+    // a segment size that is not a multiple of the request size: the capacity computation of a
+    // NAK PDU (how many requests fit) is exercised with several separate gaps
+    for seg in args.tier.pick(vec![20u16], vec![20u16, 28]) {
+        let mut s = Scenario::base(&format!("c08 seg={} size={} nak=def0 F=4 d (every loss subset)", seg, 3 * seg as u64));
+        s.seg = seg;
+        s.file_size = Some(3 * seg as u64);
+        s.faults = 4;
+        s.k_drop = true;
+        s.max_count = 6;
+        scns.push(s);
+    }
     let res = run_all(scns, mk, args.tier);
     with_conformance(fold(res, &["panic", "codec"], 0, json!({})), &[(true, false)])
 }
@@ -673,6 +731,20 @@ pub fn c13_e1(tier: Tier) -> Vec<ExploreResult> {
             b.stragglers = tier.pick(1, 2);
             b.stragglers_after_success = true;
             scns.push(b);
+            // a loss the checksum cannot see (Null checksum / zero content): delivery is
+            // incomplete without any fault being raised
+            if file && !ack {
+                for (null, content) in [(true, Content::Ramp), (false, Content::Zeros)] {
+                    let mut n = s.clone();
+                    n.name = format!("{} {} F=1 d", s.name, if null { "null-checksum" } else { "zero-content" });
+                    n.null_checksum = null;
+                    n.content = content;
+                    n.file_size = Some(33);
+                    n.faults = 1;
+                    n.k_drop = true;
+                    scns.push(n);
+                }
+            }
             // cancel: no effect at all
             let mut c = s.clone();
             c.name = format!("{} cancel@R", s.name);
